@@ -12,7 +12,13 @@ def _extra(stats, cov):
     return dict(programs=produced + runs, disagreements_checked=validated + logs,
                 plans_produced=produced, distinct_plans_validated=validated, plans_rejected=validated - accepted,
                 pipeline_runs=runs, consume_logs_judged=logs, consume_logs_rejected=logs - stats.get('logs_accepted', 0),
-                consume_records=stats.get('consume_records', 0))
+                consume_records=stats.get('consume_records', 0),
+                # generator family scale: plans / call logs of histories with 10^3 .. 10^6 branches judged by the extracted
+                # fast_c02 (C02_fast_necessary: a rejected plan violates C02)
+                large_plans_validated=stats.get('scale_plans_validated', 0),
+                large_plan_actions_validated=stats.get('scale_actions_validated', 0),
+                large_plans_with_branch_index_ge_65536=stats.get('scale_plans_with_branch_index_ge_65536', 0),
+                large_runs_judged=stats.get('scale_runs', 0), large_run_calls_judged=stats.get('scale_calls_judged', 0))
 
 
 CONFIG = dict(
@@ -25,8 +31,26 @@ CONFIG = dict(
          'validated by the extracted plan_ok. Generators: every DAG (connected and disconnected) on <=5 commits x every hash '
          'order; thorough: every connected DAG on 6 commits x every 6th hash order (flag -full of the harness: all 720); samples '
          'of 6/7-commit DAGs; random histories up to 14 and up to 40 commits (several roots, octopus merges, criss-cross, '
-         'duplicate/redundant edges, disconnected components, parents outside the set). Non-trivial = some commit has two '
-         'distinct parents; distinct = distinct (n, ranks, order, edges). '
+         'duplicate/redundant edges, disconnected components, parents outside the set). Every fabricated commit carries a '
+         'committer timestamp (field times; absent = zero time): none / all equal / growing / falling against the topological '
+         'order / random / a few clocks one hour or one day behind / many ties - every mode for every <=5-commit DAG as the hash '
+         'order varies, random elsewhere. wide: forks of 7..18 branches and octopus merges of as many parents (planlib.WideGraph). '
+         'ffdeep: a line with side branches in which every per-th commit has fast-forward edges to ancestors per and 3*per commits '
+         'behind, per in 2..17 (thorough: to 129, alternative paths of up to 140 commits). '
+         'scale-<shape>: LARGE histories described by (shape, size, hmode = hashes ascending / descending / random, tmode = timestamp '
+         'mode, gseed) and regenerated from these on replay (the case line carries the parent lists as field graph for the '
+         'validator): comb (main line, one unmerged topic per commit), diamonds (chain of merge diamonds), star (one fork of size '
+         'branches), starmerge (+ one octopus merge of all of them), roots (size unrelated roots merged one by one), spine, bush '
+         '(random, many branches alive, periods 7..33), ladder (two lines with criss-cross merges every 2^k-1 / 2^k / 2^k+1 rungs), '
+         'ffchain; sizes 10^3 in every shape, 10^4 in six, stars of 255/256/257, 32767/32768/32769, 65535/65536/65537 children and a '
+         'comb with > 2^16 topic branches in the quick tier; thorough adds > 2^16 branches in diamonds / roots / starmerge, 10^5 in '
+         'seven shapes, a spine of 10^6, a star of 3*10^5 and a comb of 2^17. A large history is planned once; the plan is judged by the '
+         'extracted fast_c02 (trie-based; C02_fast_necessary: every plan it rejects violates C02 - it tests that each replay '
+         'happens on a live branch whose last commit is a parent of the commit, or on a fresh branch for a parentless commit, and '
+         'that merges join distinct live branches with the same last commit; the ancestor-set clauses are beyond it) and the '
+         'driver checks that every commit of the (connected) history is analysed. fast_c02 also runs on every small plan (it must '
+         'accept what plan_ok accepts: C02_fast_accepts_what_plan_ok_accepts; a disagreement is a MISMATCH). '
+         'Non-trivial = some commit has two distinct parents (scale: always); distinct = distinct input fields. '
          'EXECUTION stream (c02run): one case = one commit graph (same format; the hashes are those of a real in-memory go-git '
          'repository, salt = message salt that varies them) + hibernation distance 0..3 + slice order; the real '
          'NewPipeline/AddItem/Initialize/Run is executed with two stateful recording items (fork by ForkCopyPipelineItem + deep '
@@ -34,13 +58,25 @@ CONFIG = dict(
          'consumed last) is judged against the graph alone by the extracted exec_ok. Generators: every DAG on <=5 commits x '
          'distance 0..3 (thorough: every DAG on 6 commits); 1..6 unrelated root lines merged together step by step (two-parent '
          'and octopus merges, criss-cross, redundant and duplicate edges, several children per commit), random topological '
-         'numbering; the random histories of the plan stream up to 14 / 40 commits; shapes of synth.GenHist.',
+         'numbering; the random histories of the plan stream up to 14 / 40 commits; shapes of synth.GenHist. Every option Run / '
+         'the planner reads varies: opts bit 0 = Pipeline.DumpPlan, bit 1 = Pipeline.PrintActions (all four combinations over every '
+         '<=5-commit DAG, a third each elsewhere; the printed text goes to a no-op sink installed through the verif hook '
+         'verifapi/c14.SetPlanPrinter), tmode = committer timestamps growing (0) or planlib.TimesFor modes 1..6 (equal, growing, '
+         'falling, random, skewed clocks, ties). wide: forks of 7..14 branches and octopus merges of as many parents, dump / trace on '
+         'in most. scale-<shape>: the large histories of the plan stream as real repositories (10^3 branches in every shape; '
+         'thorough 10^4 in seven shapes and > 2^16 branches as star / comb / diamonds) run with a light recording item (instance '
+         'ids, no sets); the call log (root, Fork -> clones, Consume, Merge) is read as a plan over instance ids and judged by '
+         'fast_c02 against the commit graph, and every commit must be consumed.',
     exhaustive_note='all DAGs on <=5 topologically numbered commits (connected: 88 299 graph x hash-order cases, disconnected: '
                     '36 170) x all hash orders; thorough adds all connected DAGs on 6 commits x every sixth of the 720 hash orders; '
-                    'execution stream: all DAGs on <=5 commits x hibernation distance 0..3 (4 396 runs), thorough adds all DAGs on 6 commits',
+                    'execution stream: all DAGs on <=5 commits x hibernation distance 0..3 x DumpPlan/PrintActions combinations '
+                    '(4 396 runs), thorough adds all DAGs on 6 commits',
     assumptions=['commits are numbered so that parents have smaller numbers (every finite DAG has such a numbering; the '
                  'validator checks it) and the graph given to the validator is the history restricted to the analysed commit set',
-                 'prepareRunPlan reads only Hash and ParentHashes of a commit (fabricated commits are used)',
+                 'prepareRunPlan reads only Hash and ParentHashes of a commit (fabricated commits are used; Committer.When / '
+                 'Author.When are set and varied so that a planner that starts reading them is exposed)',
+                 'large histories (family scale) are judged by fast_c02, a NECESSARY condition of C02 (C02_fast_necessary), plus '
+                 '"every commit analysed"; the ancestor-set clauses of C02 are checked by plan_ok / exec_ok on graphs of up to ~150 commits only',
                  'no Gallina mirror of the planner: C02 is decided per produced plan (translation validation), not by a proof '
                  'about buildDag/mergeDag/collapseFastForwards/generatePlan themselves'],
     trusted_base=['plan stream: the abstract executor coq/theories/Plan/Exec.v as the meaning of a plan (hand-written from the '
@@ -57,8 +93,11 @@ CONFIG = dict(
                'exactly Anc(parent) with that parent last or on a fresh instance for a root; once per non-redundant parent). Not '
                'proved: that the Go planner always produces an accepted plan and that Pipeline.Run always executes it faithfully '
                '- both are checked per output (plans: exhaustively for <=5 commits, every 6th hash order for 6 commits, randomly up '
-               'to 40 commits; executions: all DAGs on <=5 commits x hibernation distance 0..3, generated multi-root / octopus / '
-               'criss-cross histories up to 40 commits). The execution log is judged against the commit graph only (the planner is '
+               'to 40 commits, wide forks / merges and long fast-forward paths to ~150 commits; executions: all DAGs on <=5 commits x '
+               'hibernation distance 0..3 x DumpPlan / PrintActions, generated multi-root / octopus / criss-cross histories up to 40 commits). '
+               'Histories with 10^3 .. 10^6 branches (family scale, incl. more than 2^16 branch indexes in one plan) are judged by '
+               'fast_c02, proved to reject only plans that violate C02 (necessary conditions: replay on a live branch after a parent, '
+               'merges of distinct live branches with a common last commit), not by the full validator. The execution log is judged against the commit graph only (the planner is '
                'not deterministic across calls). Trusted: Coq kernel, extraction, the OCaml driver, the Go harnesses incl. the '
                'recording items, and Exec.v/Spec.v/ExecCheck.v as the formal reading of Pipeline.Run and of the property.',
     technique='Coq-verified validators (translation validation) run on the plans of the real planner and on the Consume logs of '
